@@ -1,6 +1,6 @@
 (** C05 — Particle identity: pids dense, ordered, never reused, following the particle. *)
 From Coq Require Import ZArith List Bool.
-From Ladim Require Import Base.Num Model.State Proofs.StateProofs.
+From Ladim Require Import Base.Num Model.Sim Proofs.SimPidProofs Model.State Proofs.StateProofs.
 Import ListNotations.
 Open Scope Z_scope.
 
@@ -70,6 +70,15 @@ Proof.
   exact (proj1 (proj2 (step_inv _ Compactify (run_inv ops _ (empty_inv ni np idf pdf H1 H2) W) eq_refl))).
 Qed.
 Print Assumptions C05_record_pids_sorted.
+
+(** T4 through the real step protocol (Model/Sim.v: compactify, release, forcing, output, move, IBM):
+    in EVERY output record of ANY run — any release schedule, any physics, any deaths — the identifiers
+    are strictly increasing and pid[k] >= k *)
+Theorem C05_every_record_pids_sorted : forall (V C : Type) release_at forcef cachef trackf ibmf due N,
+  Forall (fun r => incr_from 0 (map (fun x => fst (fst x)) (Sim.rrows r)))
+         (Sim.recs (Sim.cold_run V C release_at forcef cachef trackf ibmf due N)).
+Proof. exact record_pids_sorted. Qed.
+Print Assumptions C05_every_record_pids_sorted.
 
 (** non-vacuity: a concrete history (append 3, kill the middle one, compactify, append 2) *)
 Example C05_ex :
